@@ -52,6 +52,7 @@ type c19File struct {
 	Services []c19Service
 	FD       *descriptorpb.FileDescriptorProto
 	UsesDep  bool
+	UsesDep2 bool
 }
 
 func camelCase(s string) string {
@@ -105,6 +106,18 @@ func depDescriptor() *descriptorpb.FileDescriptorProto {
 // c19NamesFrom, when set, lends its service names to the next generated file.
 var c19NamesFrom *c19File
 
+// a second dependency whose Go package is also called "dep" (two imports of one name: the generator has to
+// give one of them another local name, everywhere it mentions it)
+const dep2File = "dep2/dep.proto"
+
+func dep2Descriptor() *descriptorpb.FileDescriptorProto {
+	return &descriptorpb.FileDescriptorProto{
+		Name: proto.String(dep2File), Package: proto.String("dep2.pkg"), Syntax: proto.String("proto3"),
+		Options:     &descriptorpb.FileOptions{GoPackage: proto.String(genModule + "/dep2/dep;dep")},
+		MessageType: []*descriptorpb.DescriptorProto{{Name: proto.String("Amount")}},
+	}
+}
+
 // genProtoFile makes file number idx with 1..4 services.
 func genProtoFile(r *rand.Rand, idx int, dir, pkgName string) *c19File {
 	f := &c19File{Name: fmt.Sprintf("%s/f%d.proto", dir, idx), Dir: dir, PkgName: pkgName}
@@ -141,7 +154,14 @@ func genProtoFile(r *rand.Rand, idx int, dir, pkgName string) *c19File {
 	if f.UsesDep {
 		fd.Dependency = append(fd.Dependency, depFile)
 	}
+	f.UsesDep2 = f.UsesDep && r.Intn(3) == 0
+	if f.UsesDep2 {
+		fd.Dependency = append(fd.Dependency, dep2File)
+	}
 	typeFor := func() (protoType, goType string) {
+		if f.UsesDep2 && r.Intn(3) == 0 {
+			return ".dep2.pkg.Amount", "dep2.Amount"
+		}
 		if f.UsesDep && r.Intn(3) == 0 {
 			m := pick(r, "Shared", "other_msg")
 			return ".dep.pkg." + m, "dep." + camelCase(m)
@@ -259,9 +279,15 @@ func companion(f *c19File, legacyDescNames bool) string {
 	if f.UsesDep {
 		fmt.Fprintf(&b, "\tdep \"%s/dep\"\n", genModule)
 	}
+	if f.UsesDep2 {
+		fmt.Fprintf(&b, "\tdep2 \"%s/dep2/dep\"\n", genModule)
+	}
 	b.WriteString(")\n\nvar _ context.Context\nvar _ grpc.CallOption\n")
 	if f.UsesDep {
 		b.WriteString("var _ dep.Shared\n")
+	}
+	if f.UsesDep2 {
+		b.WriteString("var _ dep2.Amount\n")
 	}
 	for _, m := range f.Messages {
 		fmt.Fprintf(&b, "type %s struct{ X int }\n", camelCase(m))
@@ -558,6 +584,8 @@ func checkC19(e *core.Env) {
 		}
 		os.MkdirAll(filepath.Join(mod, "dep"), 0o755)
 		os.WriteFile(filepath.Join(mod, "dep", "dep.go"), []byte("package dep\n\ntype Shared struct{ X int }\ntype OtherMsg struct{ X int }\n"), 0o644)
+		os.MkdirAll(filepath.Join(mod, "dep2", "dep"), 0o755)
+		os.WriteFile(filepath.Join(mod, "dep2", "dep", "dep.go"), []byte("package dep\n\ntype Amount struct{ X int }\n"), 0o644)
 		var all []*c19File
 		nreq := e.N(10, 14)
 		idx := 0
@@ -577,7 +605,7 @@ func checkC19(e *core.Env) {
 				files = append(files, genProtoFile(r, idx, dir, pkg))
 				c19NamesFrom = nil
 			}
-			req := &pluginpb.CodeGeneratorRequest{Parameter: proto.String(opt.param), ProtoFile: []*descriptorpb.FileDescriptorProto{depDescriptor()}}
+			req := &pluginpb.CodeGeneratorRequest{Parameter: proto.String(opt.param), ProtoFile: []*descriptorpb.FileDescriptorProto{depDescriptor(), dep2Descriptor()}}
 			for _, f := range files {
 				req.FileToGenerate = append(req.FileToGenerate, f.Name)
 				req.ProtoFile = append(req.ProtoFile, f.FD)
@@ -728,7 +756,7 @@ func checkC19(e *core.Env) {
 			f1 := genProtoFile(r, idx-1, mdir, "mappedsrc")
 			f2 := genProtoFile(r, idx, mdir, "mappedsrc")
 			param := fmt.Sprintf("import_path=%s/ovr,M%s=%s/mapped;mapped,legacy_stubs", genModule, f1.Name, genModule)
-			req := &pluginpb.CodeGeneratorRequest{Parameter: proto.String(param), FileToGenerate: []string{f1.Name, f2.Name}, ProtoFile: []*descriptorpb.FileDescriptorProto{depDescriptor(), f1.FD, f2.FD}}
+			req := &pluginpb.CodeGeneratorRequest{Parameter: proto.String(param), FileToGenerate: []string{f1.Name, f2.Name}, ProtoFile: []*descriptorpb.FileDescriptorProto{depDescriptor(), dep2Descriptor(), f1.FD, f2.FD}}
 			resp, stderr, rerr := runPlugin(bin, req)
 			e.Eval("option|import_path+M|multi-file", true)
 			w := map[string]any{"options": param, "stderr": trunc(stderr, 400)}
@@ -770,8 +798,12 @@ func checkC19(e *core.Env) {
 			goPkg := genModule + "/storepb"
 			param := "legacy_stubs,import_path=" + goPkg
 			req := &pluginpb.CodeGeneratorRequest{Parameter: proto.String(param), FileToGenerate: []string{typesFD.GetName(), svcFD.GetName()}, ProtoFile: []*descriptorpb.FileDescriptorProto{typesFD, svcFD}}
+			if batch%2 == 1 {
+				// files are generated in command-line order, which need not be dependency order
+				req.FileToGenerate = []string{svcFD.GetName(), typesFD.GetName()}
+			}
 			resp, stderr, rerr := runPlugin(bin, req)
-			e.Eval("option|import_path|message-only-sibling", true)
+			e.Eval(fmt.Sprintf("option|import_path|message-only-sibling|service-first=%v", batch%2 == 1), true)
 			w := map[string]any{"options": param, "files": req.FileToGenerate, "stderr": trunc(stderr, 400)}
 			if rerr != nil || resp.GetError() != "" {
 				e.Violate("options/refused", fmt.Sprintf("valid option set %q refused: %v %s", param, rerr, resp.GetError()), w)
@@ -792,7 +824,7 @@ func checkC19(e *core.Env) {
 					}
 					for _, im := range af.Imports {
 						ip, _ := strconv.Unquote(im.Path.Value)
-						if strings.Contains(ip, "acme") || ip == goPkg {
+						if strings.Contains(ip, "acme") || ip == goPkg || ip == "." || ip == "" {
 							e.Violate("options/import-path-sibling", fmt.Sprintf("options %q: the stubs for %s import %q for messages of %s, which is generated into the same package", param, svcFD.GetName(), ip, typesFD.GetName()), w)
 						}
 					}
@@ -807,7 +839,7 @@ func checkC19(e *core.Env) {
 		for oi, opt := range otherOpts {
 			idx++
 			f := genProtoFile(r, idx, fmt.Sprintf("op%d_%d", batch, oi), "oppkg")
-			req := &pluginpb.CodeGeneratorRequest{Parameter: proto.String(opt.param), FileToGenerate: []string{f.Name}, ProtoFile: []*descriptorpb.FileDescriptorProto{depDescriptor(), f.FD}}
+			req := &pluginpb.CodeGeneratorRequest{Parameter: proto.String(opt.param), FileToGenerate: []string{f.Name}, ProtoFile: []*descriptorpb.FileDescriptorProto{depDescriptor(), dep2Descriptor(), f.FD}}
 			if opt.param == "" {
 				req.Parameter = nil // protoc omits the field when no options are given
 			}
